@@ -234,11 +234,16 @@ class Runner:
 
     def pure(self, net, fn, call, replay):
         """run a topology query; the user tables must be bit-identical afterwards (a query never modifies the net)"""
+        from harness import c17_ops
         before = drive.snapshot_tables(net)
+        meta0 = c17_ops.meta_state(net)
         try:
             return call()
         finally:
             after = drive.snapshot_tables(net)
+            for part in c17_ops.state_diff(meta0, c17_ops.meta_state(net))[:2]:
+                self.ctx.violation({"fn": fn, "kind": "mutates_net", "table": "<net>", "column": part},
+                                   "%s changed net.%s" % (fn, part), replay)
             if after != before:
                 t = next(k for k in sorted(set(before) | set(after)) if before.get(k) != after.get(k))
                 cols = before[t]["columns"]
